@@ -362,6 +362,15 @@ def run_cases(binary, test, cases, tag, shards=None, timeout=1500, env=None, ser
     return obs, crashes
 
 
+def _no_nulls(x):
+    """TLC's JSON reader has no null: drop null members, turn null items into "null"."""
+    if isinstance(x, dict):
+        return {k: _no_nulls(v) for k, v in x.items() if v is not None}
+    if isinstance(x, list):
+        return [_no_nulls(v) if v is not None else "null" for v in x]
+    return x
+
+
 def hung_cases(obs):
     """Names of cases the driver's watchdog reported as hung."""
     return [n for n, o in obs.items() if o.get("hang")]
@@ -371,7 +380,7 @@ def judge_observations(module, cfg, obs_list, tag, timeout=1800):
     """Writes the observations as one log, lets TLC judge every line (DEVIATION lines), returns
     (number judged, list of deviating observation names)."""
     path = os.path.join(sub(tag + ".judge"), "obs.ndjson")
-    write_ndjson(path, obs_list)
+    write_ndjson(path, [_no_nulls(o) for o in obs_list])
     r = tlc(module, cfg, workers=1, timeout=timeout, env={"VERIF_TRACE": path}, heap="6g")
     m = re.findall(r'<<"JUDGED", (\d+), "BAD", (\d+)>>', r["out"])
     if not m:
